@@ -43,6 +43,8 @@ pub(super) fn parse_literal<R: Read>(scanner: &mut Scanner<R>) -> Result<String,
     let mut id = Vec::new();
 
     while !scanner.is_eof && (scanner.is_alpha_num() || scanner.cur == b'_') {
+        #[cfg(feature = "verif-hooks")]
+        crate::haystack::verif_hooks::tick(crate::haystack::verif_hooks::SITE_LOOP);
         id.push(scanner.cur);
         scanner.advance()?
     }
